@@ -161,6 +161,11 @@ func typedMain(args []string) int {
 			runTypedMonitor(w, p, *seed*1000+int64(r*100+i))
 		}
 	}
+	for i, p := range typedPkgs() {
+		if i%4 == int(*seed)%4 { // the overflow scenario is long: a quarter of the packages per process
+			runTypedOverflow(w, p, *seed)
+		}
+	}
 	for _, p := range typedPkgs() {
 		runTypedRequests(w, p)
 	}
@@ -461,6 +466,61 @@ func runTypedMonitor(w *ndWriter, p typedPkg, seed int64) {
 	sq := "[" + strings.Join(seq, ",") + "]"
 	mu.Unlock()
 	w.write2(fmt.Sprintf(`{"k":"typed.mon","pkg":%q,"seed":%d,"quiet":%v,"seq":%s}`, p.name, seed, quiet, sq))
+	cancel()
+	for i := 0; i < 400; i++ {
+		if n, _ := libGoroutineCount(); n == 0 {
+			break
+		}
+		time.Sleep(5 * time.Millisecond)
+	}
+}
+
+// runTypedOverflow: a typed subscriber that never reads loses only events beyond its buffer (it keeps the first
+// EventBufsiz in order); a reading typed sibling and the typed cache see everything (C10 for the typed layer).
+func runTypedOverflow(w *ndWriter, p typedPkg, seed int64) {
+	log := newLog(nil)
+	ctx, cancel := context.WithCancel(context.Background())
+	defer cancel()
+	srv := NewObjServer()
+	ns := "n1"
+	if p.name == "node" {
+		ns = ""
+	}
+	res := reflect.ValueOf(p.build).Call([]reflect.Value{reflect.ValueOf(ctx), reflect.ValueOf(log), reflect.ValueOf(client.Client(srv))})
+	if errOf(res[1]) != nil {
+		return
+	}
+	tc := res[0]
+	<-chanOf(call(tc, "Ready")[0])
+	stalled := call(tc, "Subscribe")[0]
+	healthy := call(tc, "Subscribe")[0]
+	var mu sync.Mutex
+	var hev []evRec
+	go hw_typedsub(healthy, &mu, &hev)
+	total := 2*kcache.EventBufsiz + 50
+	for i := 0; i < total; i++ {
+		srv.Set(p.mk(metav1.ObjectMeta{Namespace: ns, Name: "a", Labels: map[string]string{"x": fmt.Sprint(i % 3)}}))
+		if i%20 == 19 {
+			quiesce(theTracer, 3*time.Second) // the reading sibling keeps its backlog small
+		}
+	}
+	quiet := quiesce(theTracer, 3*time.Second)
+	var sev []evRec
+	ch := call(stalled, "Events")[0]
+	for {
+		v, ok := ch.TryRecv()
+		if !ok {
+			break
+		}
+		o := call(v, "Resource")[0].Interface().(metav1.Object)
+		sev = append(sev, evRec{fmt.Sprint(call(v, "Type")[0].Interface()), keyOfMeta(o), o.GetResourceVersion()})
+	}
+	mu.Lock()
+	he := evsJSONT(hev)
+	mu.Unlock()
+	w.write2(fmt.Sprintf(`{"k":"typed.overflow","pkg":%q,"quiet":%v,"published":%d,"buf":%d,"healthy":%s,"stalled":%s}`, p.name, quiet, total, kcache.EventBufsiz, he, evsJSONT(sev)))
+	call(tc, "Close")
+	<-chanOf(call(tc, "Done")[0])
 	cancel()
 	for i := 0; i < 400; i++ {
 		if n, _ := libGoroutineCount(); n == 0 {
